@@ -22,6 +22,11 @@ def parseNumDesc (s : String) : Option NumDesc :=
   | ["Z"] => some .zero
   | ["S", a, b] => do pure (.sqrt (← a.toNat?) (← b.toNat?))
   | ["C", a, b] => do pure (.cube (← a.toNat?) (← b.toNat?))
+  -- Si / Sr / Sb, Ci / Cr / Cb: the same Number through the int64 / int64-fraction / *big.Int constructor
+  | ["Si", a, "1"] | ["Sb", a, "1"] => do pure (.sqrt (← a.toNat?) 1)
+  | ["Sr", a, b] => do pure (.sqrt (← a.toNat?) (← b.toNat?))
+  | ["Ci", a, "1"] | ["Cb", a, "1"] => do pure (.cube (← a.toNat?) 1)
+  | ["Cr", a, b] => do pure (.cube (← a.toNat?) (← b.toNat?))
   | ["R", a, b] => do pure (.rat (← a.toNat?) (← b.toNat?))
   | ["T", f, r, e] => do pure (.test (← intList f) (← intList r) (← e.toInt?))
   | ["F", f, e] => do pure (.finite (← intList f) (← e.toInt?))
